@@ -10,6 +10,7 @@ CONSTANTS
   MaxK = 2
   SteadyT = 5
   SolveOK <- MC_SolveQuick
+  EditOK <- MC_EditQuick
   AsFound_SubstitutesVarWithIC = FALSE
 INVARIANT TypeOK
 INVARIANT C03_SameSolution
